@@ -305,7 +305,7 @@ func checkC07(e *Env) {
 	concProcs := e.pick(3, 24)
 	parallel(concProcs, max(1, e.Workers/4), func(ci int) {
 		r := rng.New(e.Seed, "C07-conc-"+itoa(ci))
-		c := &plan.Conc{GoMaxProcs: []int{1, 2, 8, 4}[ci%4]}
+		c := &plan.Conc{GoMaxProcs: []int{1, 2, 8, 4, 3, 6}[ci%6]}
 		G := []int{8, 4, 16}[ci%3]
 		for w := 0; w < G; w++ {
 			var ops []plan.Op
